@@ -63,11 +63,17 @@ def confirm(d):
         shutil.copy(os.path.join(d, "demo.rs"), demo_dst)
         cmd = m["demo_cmd"].replace("{test}", "seeded_demo")
         rc1, out1 = sh(cmd + " 2>&1 | tail -60", cwd=wt, env=env)
-        res["demo_fails_with_patch"] = ("test result: FAILED" in out1) or ("panicked" in out1 and "test result: ok" not in out1)
+        res["demo_fails_with_patch"] = ("test result: FAILED" in out1) or ("panicked" in out1 and "test result: ok" not in out1) or ("error: Undefined Behavior" in out1) or ("error: memory leaked" in out1)
         res["demo_with_patch_tail"] = out1[-600:]
         sh("git apply -R %s" % os.path.join(d, "patch.diff"), cwd=wt)
         rc2, out2 = sh(cmd + " 2>&1 | tail -60", cwd=wt, env=env)
-        res["demo_passes_without_patch"] = "test result: ok" in out2 and "FAILED" not in out2
+        res["demo_passes_without_patch"] = "test result: ok" in out2 and "FAILED" not in out2 and "error: Undefined Behavior" not in out2 and "error: memory leaked" not in out2
+        if m.get("native_cmd"):
+            # sanitizer-only changes: natively the demo passes even WITH the patch
+            sh("git apply %s" % os.path.join(d, "patch.diff"), cwd=wt)
+            rc3, out3 = sh(m["native_cmd"].replace("{test}", "seeded_demo") + " 2>&1 | tail -30", cwd=wt, env=env)
+            res["demo_passes_natively_with_patch"] = "test result: ok" in out3 and "FAILED" not in out3
+            sh("git apply -R %s" % os.path.join(d, "patch.diff"), cwd=wt)
         res["demo_without_patch_tail"] = out2[-300:]
     finally:
         sh("git -C /repo worktree remove --force %s" % wt)
@@ -76,7 +82,7 @@ def confirm(d):
     return res
 
 
-def detect(d, tier, props=None):
+def detect(d, tier, props=None, label=None):
     d = os.path.abspath(d)
     m = load(d)
     props = props or [m["property"]]
@@ -84,7 +90,7 @@ def detect(d, tier, props=None):
     assert out.strip() == "", "/repo has uncommitted changes: " + out
     rc, out = sh("git -C /repo apply %s" % os.path.join(d, "patch.diff"))
     assert rc == 0, out
-    det = m.setdefault("detection", {}).setdefault(tier, {})
+    det = m.setdefault("detection", {}).setdefault(label or tier, {})
     try:
         for p in props:
             rc, out = sh("./check %s --tier %s" % (p, tier), cwd=ROOT, timeout=4 * 3600)
@@ -133,6 +139,7 @@ if __name__ == "__main__":
             tier = sys.argv[sys.argv.index("--tier") + 1]
         if "--props" in sys.argv:
             props = sys.argv[sys.argv.index("--props") + 1].split(",")
-        detect(sys.argv[2], tier, props)
+        label = sys.argv[sys.argv.index("--label") + 1] if "--label" in sys.argv else None
+        detect(sys.argv[2], tier, props, label)
     elif sys.argv[1] == "table":
         table()
